@@ -147,16 +147,11 @@ def remove_cand(
         return cast(COB, clean_profile)
 
     elif isinstance(profile_or_ballots, Ballot):
-        clean_profile = None
-
-        if leave_zero_weight_ballots:
-            clean_profile = PreferenceProfile(
-                ballots=tuple(scrubbed_ballots),
-            )
-        else:
-            clean_profile = PreferenceProfile(
-                ballots=tuple([b for b in scrubbed_ballots if b.weight > 0]),
-            )
+        # a single ballot always yields a single ballot: if no candidate survives it is the
+        # exhausted zero-weight ballot (there is no profile to drop it from)
+        clean_profile = PreferenceProfile(
+            ballots=tuple(scrubbed_ballots),
+        )
 
         if condense:
             clean_profile = clean_profile.condense_ballots()
